@@ -27,6 +27,15 @@ NSHARDS = 16
 FORMS = ("T", "T", "S T", "T S", "T T", "T ...", "... T", "S T ...", "... S T", "S", "U", "U T", "T U ...", "... U")
 
 
+def respell(rng, form):
+    """the same structure string with other (insignificant) whitespace: leading / trailing blanks, several blanks or a
+    tab between the names"""
+    if rng.random() < 0.6:
+        return form
+    sep = rng.choice((" ", "  ", "\t", " \t "))
+    return rng.choice(("", " ", "\t")) + sep.join(form.split()) + rng.choice(("", " ", "  "))
+
+
 def shards(tier):
     return [{"i": i} for i in range(NSHARDS)]
 
@@ -146,7 +155,7 @@ def run_case(rec, rng, rngkey=None):
     def body():
         bound = {}
         for name, tree in (("T", t), ("S", s)):
-            got = real.check(tree, jaxtyping.PyTree[int, name])
+            got = real.check(tree, jaxtyping.PyTree[int, respell(rng, name)])
             if got != "ok":
                 return ("binder", name, got)
             if tree is not None:
@@ -157,7 +166,7 @@ def run_case(rec, rng, rngkey=None):
             exp, newb = expected(form, bound, TM.struct(x, cand_isl))
             if lt == "pair" and exp == "ok" and not all(is_pair(l) for l in TM.leaves(x, cand_isl)):
                 exp, newb = "no", None  # a leaf that is not a pair of ints fails the leaf type
-        got = real.check(x, jaxtyping.PyTree[leaftype, form])
+        got = real.check(x, jaxtyping.PyTree[leaftype, respell(rng, form)])
         rs, rv, rt = real.bindings()
         names = set(bound) | ({newb[0]} if (newb and got == "ok") else set())
         return ("cand", exp, got, set(rt), names)
